@@ -25,6 +25,27 @@ class Inconclusive(Exception):
     pass
 
 
+def guarded(fn, prop, case, res):
+    """run one case; an exception RAISED INSIDE the repository's code that reaches the harness unhandled means the
+    code under observation failed where the workload requires an answer -> violation with the case as witness.
+    An exception raised in harness code (e.g. a private attribute vanished in a refactoring) stays a harness
+    error (inconclusive), never a verdict."""
+    import traceback
+
+    try:
+        fn(prop, case, res)
+    except Inconclusive:
+        raise
+    except Exception as e:
+        tb = traceback.extract_tb(e.__traceback__)
+        root = os.path.realpath(REPO) + os.sep
+        if tb and os.path.realpath(tb[-1].filename).startswith(root):
+            fr = tb[-1]
+            res.violation(prop, "unexpected-exception", "the repository raised %s: %s at %s:%d (%s) where the workload requires an answer" % (type(e).__name__, str(e)[:200], fr.filename[len(root):], fr.lineno, fr.name), case)
+        else:
+            raise
+
+
 def h64(obj):
     """stable 64-bit hash of a JSON-serialisable object"""
     s = json.dumps(obj, sort_keys=True, separators=(",", ":"), default=str)
